@@ -24,26 +24,26 @@ func init() {
 
 // errExempt: discarded errors that are deliberate, one callee per function, with the reason.
 var errExempt = map[string]string{
-	"internal/flatten/replace.getPointerFromKey/PathUnescape":   "lenient decoding of the key: an invalid escape leaves an empty path and the following jsonpointer lookup fails with an error",
-	"internal/flatten/replace.getParentFromKey/PathUnescape":    "same lenient decoding as getPointerFromKey",
-	"internal/flatten/normalize.RebaseRef/PathUnescape":         "lenient decoding of $ref strings before rebasing ('%' is outside the alphabet)",
-	"internal/flatten/normalize.RebaseRef/Parse":                "url.Parse only fails on an invalid '%' escape, outside the alphabet; recorded as an observation under C09 (no failing input in W+)",
-	"internal/flatten/normalize.Path/PathUnescape":              "lenient decoding of $ref strings",
-	"internal/flatten/normalize.Path/Parse":                     "url.Parse only fails on an invalid '%' escape, outside the alphabet",
-	"internal/flatten/replace.DeepestRef/MarshalJSON":           "re-marshalling of a value that was unmarshalled from JSON cannot fail; the following UnmarshalJSON error is propagated",
-	"internal/flatten/replace.DeepestRef/Marshal":               "re-marshalling of a value that was unmarshalled from JSON cannot fail; the following UnmarshalJSON error is propagated",
-	"internal/flatten/schutils.Clone/FromDynamicJSON":           "cloning a schema that was itself loaded from JSON cannot fail",
-	"internal/flatten/sortref.SplitKey.ResponseName/Atoi":       "guarded by IsStatusCodeResponse, which already parsed the same token",
+	"internal/flatten/replace.getPointerFromKey/PathUnescape":     "lenient decoding of the key: an invalid escape leaves an empty path and the following jsonpointer lookup fails with an error",
+	"internal/flatten/replace.getParentFromKey/PathUnescape":      "same lenient decoding as getPointerFromKey",
+	"internal/flatten/normalize.RebaseRef/PathUnescape":           "lenient decoding of $ref strings before rebasing ('%' is outside the alphabet)",
+	"internal/flatten/normalize.RebaseRef/Parse":                  "url.Parse only fails on an invalid '%' escape, outside the alphabet; recorded as an observation under C09 (no failing input in W+)",
+	"internal/flatten/normalize.Path/PathUnescape":                "lenient decoding of $ref strings",
+	"internal/flatten/normalize.Path/Parse":                       "url.Parse only fails on an invalid '%' escape, outside the alphabet",
+	"internal/flatten/replace.DeepestRef/MarshalJSON":             "re-marshalling of a value that was unmarshalled from JSON cannot fail; the following UnmarshalJSON error is propagated",
+	"internal/flatten/replace.DeepestRef/Marshal":                 "re-marshalling of a value that was unmarshalled from JSON cannot fail; the following UnmarshalJSON error is propagated",
+	"internal/flatten/schutils.Clone/FromDynamicJSON":             "cloning a schema that was itself loaded from JSON cannot fail",
+	"internal/flatten/sortref.SplitKey.ResponseName/Atoi":         "guarded by IsStatusCodeResponse, which already parsed the same token",
 	"internal/flatten/sortref.SplitKey.IsStatusCodeResponse/Atoi": "the error is the result: err == nil is what the predicate returns",
 }
 
 // errExemptPkg: the same deliberate discards, keyed by package and callee (the discard may live in any helper of the package).
 var errExemptPkg = map[string]string{
-	"internal/flatten/replace/PathUnescape":   "lenient decoding of an analyzer key: an invalid escape leaves an empty path and the following jsonpointer lookup fails with an error",
-	"internal/flatten/replace/MarshalJSON":    "re-marshalling of a value that was unmarshalled from JSON cannot fail; the following UnmarshalJSON error is propagated",
-	"internal/flatten/replace/Marshal":        "re-marshalling of a value that was unmarshalled from JSON cannot fail; the following UnmarshalJSON error is propagated",
-	"internal/flatten/normalize/PathUnescape": "lenient decoding of $ref strings ('%' is outside the alphabet)",
-	"internal/flatten/normalize/Parse":        "url.Parse only fails on an invalid '%' escape, outside the alphabet",
+	"internal/flatten/replace/PathUnescape":     "lenient decoding of an analyzer key: an invalid escape leaves an empty path and the following jsonpointer lookup fails with an error",
+	"internal/flatten/replace/MarshalJSON":      "re-marshalling of a value that was unmarshalled from JSON cannot fail; the following UnmarshalJSON error is propagated",
+	"internal/flatten/replace/Marshal":          "re-marshalling of a value that was unmarshalled from JSON cannot fail; the following UnmarshalJSON error is propagated",
+	"internal/flatten/normalize/PathUnescape":   "lenient decoding of $ref strings ('%' is outside the alphabet)",
+	"internal/flatten/normalize/Parse":          "url.Parse only fails on an invalid '%' escape, outside the alphabet",
 	"internal/flatten/schutils/FromDynamicJSON": "cloning a schema that was itself loaded from JSON cannot fail",
 }
 
